@@ -140,6 +140,13 @@ func propC09(c *Ctx, r *Report) {
 	r.Clauses = append(r.Clauses, "sampling offsets (E49): every lowering function that builds ExprImageSample from a call's arguments sets Offset (except the ClampToEdge builtin, which has none)")
 	c.runSampleOffsetKept(r, "sample.offsetkept", "wgsl/internal/lower")
 	r.floor("sample.offsetkept", 3)
+	r.Clauses = append(r.Clauses, staleHandlesClause)
+	c.runStaleHandles(r, "phase.stalehandles", "wgsl/internal/lower", nil)
+	r.floor("phase.renumberingTails", 1)
+	r.floor("phase.afterRenumbering", 8)
+	r.Clauses = append(r.Clauses, zeroSentinelClause)
+	c.runZeroSentinel(r, "handle.zerosentinel", func(string) bool { return true }, zeroSentinelExceptions)
+	r.floor("handle.sentinelFuncs", 1)
 	r.Clauses = append(r.Clauses, emitFlushClause)
 	c.runEmitFlushFirst(r, "emit.flushfirst", "wgsl/internal/lower", emitFlushExceptions)
 	r.floor("emit.flushfirst", 10)
@@ -243,4 +250,13 @@ func propC13(c *Ctx, r *Report) {
 	r.floor("passes.ExpressionHandle.walkers", 4)
 	r.floor("passes.TypeHandle.remappers", 2)
 	r.floor("passes.Block.walkers", 10)
+}
+
+const staleHandlesClause = "renumbered type arena (E54): whatever the lowerer runs after ir.CompactTypes / ir.ReorderTypes (in the function that calls them) does not read the lowerer's own tables of type handles filled before the renumbering - a map to ir.TypeHandle or the type registry"
+
+const zeroSentinelClause = "zero is a handle (E53): where a function whose only result is an ir.TypeHandle answers a failed search of the type arena with the constant 0, each caller compares the result with 0 before using it as a type"
+
+var zeroSentinelExceptions = map[string]string{
+	"msl/internal/codegen.Writer.tryFoldConstantCast:findOrRegisterScalarType#1": "the handle travels with a folded Uint scalar to writeScalarValue, which consults the type only for the width of a Float",
+	"msl/internal/codegen.Writer.tryFoldConstantCast:findOrRegisterScalarType#2": "the handle travels with a folded Sint scalar to writeScalarValue, which consults the type only for the width of a Float",
 }
